@@ -1760,6 +1760,17 @@ def check_rowptr_builders(ck, facts):
                     continue
                 src_c = render(strip_cast(src))
                 guard = False
+                # form 2: the inner loop is enclosed in `if(... key == i ...)`
+                x_ = lp2
+                while id(x_) in par and par[id(x_)] is not lp:
+                    x_ = par[id(x_)]
+                    if x_.get("k") == "If" and any(y is lp2 for y in walk(x_.get("then"))):
+                        for y in walk(x_["c"]):
+                            if y.get("k") == "Bin" and y.get("op") == "==":
+                                sides = [strip_cast(y["lhs"]), strip_cast(y["rhs"])]
+                                if any(z.get("k") == "Ref" and z.get("d") == lvd for z in sides) and any(
+                                        z.get("k") == "Member" and z.get("n") == "first" and render(strip_cast(z.get("b"))) == src_c for z in sides):
+                                    guard = True
                 for b in body:
                     if any(x is lp2 for x in walk(b)):
                         break
